@@ -1,0 +1,5 @@
+//go:build !verif
+
+package lsp
+
+func verifOnHandle(method string) {}
